@@ -24,7 +24,7 @@ def snapshot():
 
 # enterprise elements: every type under two enterprise numbers (one with the top bit of a
 # signed 32-bit integer set, to exercise the unsigned rendering)
-PENS = [4660, 2147483649]
+PENS = [4660, 2147483649, 4660 + 65536]      # (two enterprise numbers that agree in their low 16 bits)
 
 
 def ext_elements():
